@@ -39,10 +39,10 @@ def dumpState (m : Mgr) : String :=
   let l2v := joinWith "," (m.tbl.l2v.toList.map fun (l, v) => s!"{l}:{v}")
   let succ := joinWith "," (m.tbl.succ.toList.map fun (u, n) => s!"{u}:{n.lvl}:{n.lo}:{n.hi}")
   let ref := joinWith "," (m.ref.toList.map fun (u, c) => s!"{u}:{c}")
-  let pred := joinWith "," ((sortBy (fun (a b : Nat × Nd) => a.1 ≤ b.1) (m.pred.toList.map fun (n, u) => (u, n))).map
-    fun (u, n) => s!"{n.lvl}:{n.lo}:{n.hi}>{u}")
-  let cache := joinWith "," ((sortBy (fun (a b : (Int × Int × Int) × Int) => cmpTriple a.1 b.1) m.cache.toList).map
-    fun ((g, u, v), w) => s!"{g}:{u}:{v}>{w}")
+  let pred := joinWith "," ((sortBy (fun (a b : Nat × List Int) => a.1 ≤ b.1) (m.pred.toList.map fun (n, u) => (u, n))).map
+    fun (u, n) => joinWith ":" (n.map toString) ++ s!">{u}")
+  let cache := joinWith "," (m.cache.toList.map
+    fun (k, w) => joinWith ":" (k.map toString) ++ s!">{w}")
   let lastLen := match m.lastLen with
     | none => "none"
     | some l => toString l
@@ -128,7 +128,14 @@ def showOut (r : Except Err Res) : String :=
   | .error e => "err " ++ toString e
 
 def assignmentStr (a : List (String × Bool)) : String :=
+  if a.isEmpty then "*" else
   joinWith "&" (sortStr (a.map fun (v, b) => s!"{v}={showBool b}"))
+
+def showGraph (g : List (Nat × Nat) × List (Nat × Nat × Bool × Bool)) : String :=
+  let ns := joinWith "," ((sortBy (fun (a b : Nat × Nat) => a.1 ≤ b.1) g.1).map fun (u, l) => s!"{u}@{l}")
+  let es := joinWith "," ((sortBy (fun (a b : Nat × Nat × Bool × Bool) => a.1 < b.1 || (a.1 = b.1 && (!a.2.2.1 || b.2.2.1))) g.2).map
+    fun (u, v, val, c) => s!"{u}>{v}:{showBool val}:{showBool c}")
+  s!"N={ns};E={es}"
 
 /-- run a model computation on manager `id` -/
 def runOn (ms : Mgrs) (id : Nat) (x : M Res) : Mgrs × Except Err Res :=
@@ -340,6 +347,16 @@ def stepMgr (op : String) (args : List String) : M Res := do
     match parseInts r with
     | some r => do M.modify (fun m => { m with roots := r }); return .unit
     | none => M.throw .other
+  | "to_nx", [r] =>
+    match parseInts r with
+    | some r => return .str (showGraph (← liftE (toNx m.tbl r)))
+    | none => M.throw .other
+  | "to_nx", [] => return .str (showGraph (← liftE (toNx m.tbl [])))
+  | "to_dot", [r] =>
+    match parseInts r with
+    | some r => return .str (showGraph (← liftE (toDot m.tbl (some r))))
+    | none => M.throw .other
+  | "to_dot_all", [] => return .str (showGraph (← liftE (toDot m.tbl none)))
   | "state", [] => return .str (dumpState m)
   | _, _ => M.throw .other
 
@@ -386,7 +403,7 @@ def stepLine (ms : Mgrs) (line : String) : Mgrs × String :=
       | none => (ms, "err BAD-MGR")
       | some m =>
         let (r, m') := stepMgr op args { m with sched := sched }
-        let left := !m'.sched.isEmpty
+        let left := !m'.sched.isEmpty && (match r with | .ok _ => true | .error _ => false)
         let m' := { m' with sched := [] }
         (ms.insert id m', showOut r ++ (if left then " SCHED-LEFT" else ""))
   | _ => (ms, "err BAD-LINE")
